@@ -217,7 +217,13 @@ func (m *VM) step(i int, op *Op) *Rec {
 			rnd := NewSimRand(op.Ent)
 			rd := callerReader(rnd, op.Ent)
 			var bld biscuit.Builder
-			if op.RootID != nil && i%2 == 0 { // options in either order
+			if len(op.Base) > 0 && op.RootID != nil {
+				bld = biscuit.NewBuilder(k.Priv, symbolsOption(m, op.Base, biscuit.WithSymbols), biscuit.WithRNG(rd), biscuit.WithRootKeyID(*op.RootID))
+			} else if len(op.Base) > 0 && i%2 == 0 {
+				bld = biscuit.NewBuilder(k.Priv, symbolsOption(m, op.Base, biscuit.WithSymbols), biscuit.WithRNG(rd))
+			} else if len(op.Base) > 0 {
+				bld = biscuit.NewBuilder(k.Priv, biscuit.WithRNG(rd), symbolsOption(m, op.Base, biscuit.WithSymbols))
+			} else if op.RootID != nil && i%2 == 0 { // options in either order
 				bld = biscuit.NewBuilder(k.Priv, biscuit.WithRootKeyID(*op.RootID), biscuit.WithRNG(rd))
 			} else if op.RootID != nil {
 				bld = biscuit.NewBuilder(k.Priv, biscuit.WithRNG(rd), biscuit.WithRootKeyID(*op.RootID))
@@ -226,7 +232,7 @@ func (m *VM) step(i int, op *Op) *Rec {
 			} else {
 				bld = biscuit.NewBuilder(k.Priv, biscuit.WithRNG(rd))
 			}
-			m.put(op.Out, &BldObj{Bld: bld, Key: op.A, RootID: op.RootID, Rand: rnd, Default: op.Ent.Default})
+			m.put(op.Out, &BldObj{Bld: bld, Key: op.A, RootID: op.RootID, Rand: rnd, Default: op.Ent.Default, Base: op.Base})
 		}
 	case "bldadd":
 		b := m.Bld(op.A)
@@ -266,7 +272,7 @@ func (m *VM) step(i int, op *Op) *Rec {
 					v := *b.RootID
 					abs.RootID = &v
 				}
-				m.put(op.Out, &TokObj{B: tok, Abs: abs, RootKey: b.Key, Created: i, SignEvents: []int{i}})
+				m.put(op.Out, &TokObj{B: tok, Abs: abs, RootKey: b.Key, Created: i, SignEvents: []int{i}, Base: b.Base})
 			}
 			rec.Class = okClass(err)
 		}
@@ -698,7 +704,7 @@ func (m *VM) step(i int, op *Op) *Rec {
 			break
 		}
 		body = func() {
-			err := a.Az.LoadPolicies(bl.Data)
+			err := m.loadPolicies(a.Az, bl.Data)
 			rec.Err = errStr(err)
 			rec.Class = okClass(err)
 			rec.setI("mutated", b2i(bl.Mutated))
